@@ -142,7 +142,10 @@ class Scope(Error):
             self._added.add(name)
 
     def nlri_add(self, name: str, command: str, data: Any) -> None:
-        self.get_route().nlri.add(data)
+        if self.get_route().nlri.add(data) is False:
+            # Flow.add() answers False for a source and a destination of two address families: the second prefix
+            # was dropped and the rule sent wider than written
+            raise ValueError(f'{command} {data} can not be added to this route (address family of the other prefix)')
 
     # Settings mode: deferred NLRI construction
 
